@@ -149,12 +149,21 @@ def arms_known_finding(spec, opts_list=None):
     lib = spec.get("lib", {})
     if "MinConnectorOverlap" in lib.get("com.nagwa.MATHPlugin.constants", {}):
         return "KF-C07-1"
-    for f in lib.get("com.github.googlei18n.ufo2ft.filters", []):
-        if "DottedCircle" in f.get("name", ""):
-            return "KF-C07-dottedcircle"
-    if "com.github.googlei18n.ufo2ft.colorPalettes" in lib:
-        return "KF-C07-colorlayers"
     return None
+
+
+def snapshot_mask(spec):
+    """what the open findings KF-C07-2 (colour layers) and KF-C07-3 (DottedCircle) are known to rewrite in the source; everything else
+    must still be unchanged"""
+    lib = spec.get("lib", {})
+    mask = {}
+    if "com.github.googlei18n.ufo2ft.colorPalettes" in lib and "com.github.googlei18n.ufo2ft.colorLayers" not in lib:
+        mask["drop_lib_keys"] = ("com.github.googlei18n.ufo2ft.colorLayers",)
+        mask["mask_layers"] = tuple(l["name"] for l in spec.get("layers", []) if l["name"].startswith("color"))
+    if any("DottedCircle" in f.get("name", "") for f in lib.get("com.github.googlei18n.ufo2ft.filters", [])):
+        mask["drop_features"] = True
+        mask["drop_category_of"] = "uni25CC"
+    return mask
 
 
 def known_class(case):
@@ -176,7 +185,11 @@ def run_case(case, ctx):
         if case["fam"].get("unnamed_sources"):
             for s in ds.sources:
                 s.name = None
-    before = [SN.font_snapshot(f) for f in fonts]
+    src0 = case.get("spec") or case["fam"]["base"]
+    mask = {} if case.get("no_exclusions") else snapshot_mask(src0)
+    if mask:
+        ctx.label("known-finding-class-masked(KF-C07-2/3)")
+    before = [SN.font_snapshot(f, **mask) for f in fonts]
     before_ds = SN.designspace_snapshot(ds) if ds is not None else None
     raised = 0
     for i, op in enumerate(case["ops"]):
@@ -199,7 +212,7 @@ def run_case(case, ctx):
             outcome = "raised %s" % type(e).__name__
             raised += 1
             ctx.count("raised:%s:%s" % (op["fn"], type(e).__name__))
-        after = [SN.font_snapshot(f) for f in fonts]
+        after = [SN.font_snapshot(f, **mask) for f in fonts]
         for k, (a, b) in enumerate(zip(before, after)):
             if a != b:
                 parts = SN.diff_parts(a, b)
